@@ -12,7 +12,7 @@ using namespace mc;
 
 static int L = 6;                      // stream length
 struct Seg { int off, len; };          // off may be negative (bytes before the ISN)
-static uint8_t stream_byte(int pos) { return pos >= 0 ? uint8_t(0x10 + pos) : uint8_t(0xE0 - pos); }
+static uint8_t stream_byte(int pos) { return pos >= 0 ? uint8_t(0x10 + pos) : uint8_t(0xE0u - (unsigned)pos); }
 static std::vector<uint8_t> seg_bytes(const Seg& s) {
     std::vector<uint8_t> v;
     for (int i = 0; i < s.len; ++i) v.push_back(stream_byte(s.off + i));
@@ -33,6 +33,8 @@ static std::vector<Seg> make_alphabet() {
     // stale segments wholly before the ISN, one ending exactly at the ISN, and straddling ones
     a.push_back(Seg{-1, 1}); a.push_back(Seg{-2, 1}); a.push_back(Seg{-2, 2});
     a.push_back(Seg{-1, 2}); a.push_back(Seg{-1, 3}); a.push_back(Seg{-2, L + 2});
+    // far behind the ISN but still within half the sequence space: 2^30 + 5 and 2^31 - 9 positions before it
+    a.push_back(Seg{-(1 << 30) - 5, 3}); a.push_back(Seg{-0x7ffffff7, 2});
     return a;
 }
 static std::string seg_str(const Seg& s) { return str(s.off) + "+" + str(s.len); }
